@@ -1,5 +1,5 @@
 """C53 -- library(ugraphs): results match the graph-theoretic definitions."""
-import itertools, json
+import itertools, json, time
 from vlib import core, terms
 
 META = {
@@ -118,10 +118,51 @@ def query_text(case):
     return "%s(%s,R)." % (name, ",".join(arg_text(k, a, enc) for k, a in zip(kinds, args)))
 
 
-def query_coq(case):
+def query_coq(case, names=None):
+    """Coq `query`; graph arguments whose literal is in `names` are replaced by the bound name"""
     op, args, _ = case
     _, con, kinds, _ = OPS[op]
-    return "(%s %s)" % (con, " ".join(arg_coq(k, a) for k, a in zip(kinds, args)))
+    parts = []
+    for k, a in zip(kinds, args):
+        t = arg_coq(k, a)
+        parts.append(names[t] if names and k == "g" and t in names else t)
+    return "(%s %s)" % (con, " ".join(parts))
+
+
+def unit_coq(unit, cases, outs):
+    """one bool expression for a list of case indices; graphs that occur several times are let-bound"""
+    if len(unit) == 1:
+        i = unit[0]
+        return "(check %s %s)%%Z" % (query_coq(cases[i]), outs[i][0])
+    count = {}
+    for i in unit:
+        for k, a in zip(OPS[cases[i][0]][2], cases[i][1]):
+            if k == "g":
+                t = g_coq(a)
+                count[t] = count.get(t, 0) + 1
+    names = {t: "g%d" % n for n, t in enumerate(t for t, c in count.items() if c > 1)}
+    body = "check_all [%s]" % "; ".join("(%s, %s)" % (query_coq(cases[i], names), outs[i][0]) for i in unit)
+    for t, nm in names.items():
+        body = "let %s : graph := %s in %s" % (nm, t, body)
+    return "(%s)%%Z" % body
+
+
+def split_top(s):
+    """split the printed Coq list '[a; b; c]' at its top-level semicolons"""
+    s = s.strip()
+    if not (s.startswith("[") and s.endswith("]")):
+        return [s]
+    out, depth, cur = [], 0, []
+    for ch in s[1:-1]:
+        if ch in "([": depth += 1
+        elif ch in ")]": depth -= 1
+        if ch == ";" and depth == 0:
+            out.append("".join(cur).strip()); cur = []
+        else:
+            cur.append(ch)
+    if "".join(cur).strip():
+        out.append("".join(cur).strip())
+    return out
 
 
 # ---------------------------------------------------------------- decoding the implementation's answer
@@ -246,9 +287,11 @@ def graph_cases(rng, g, enc, universe, partner, k):
     return out
 
 
-def category(case):
-    """stable sub-key of a failing case: the input feature that the known defects depend on"""
+def category(case, out=None):
+    """stable sub-key of a failing case: the input feature (or error) that the known defects depend on"""
     op, args, _ = case
+    if out is not None and out[0] == "ROther" and "type_error" in out[1] and '"sort"' in out[1]:
+        return "sort2-type-error-on-char-prefixed-list"
     if op == "add_vertices":
         return "duplicate-in-vertex-list" if len(set(args[1])) < len(args[1]) else "distinct-vertex-list"
     if op == "del_vertices":
@@ -269,6 +312,7 @@ SOLO = ("duplicate-in-vertex-list", "vertex-list-names-absent-vertex")   # evalu
 
 
 def run(ctx):
+    t0 = time.time()
     rng = ctx.rng
     tie_breaks, failures = [], []
     ENC_I, ENC_M = Enc("int"), Enc("mixed")
@@ -306,20 +350,13 @@ def run(ctx):
         if all(w in vs for _, ns in g for w in ns): dist["closed"] += 1
         else: dist["dangling"] += 1
 
-    # distinct cases only; the cases in the two categories of the known defects are evaluated one by one
-    seen, cases, units = set(), [], []      # units: lists of case indices, one Coq expression each
-    for grp in groups:
-        unit = []
+    # distinct cases only
+    seen, cases, owner = set(), [], []
+    for gi, grp in enumerate(groups):
         for c in grp:
             key = query_text(c)
-            if key in seen:
-                continue
-            seen.add(key)
-            cases.append(c)
-            if category(c) in SOLO: units.append([len(cases) - 1])
-            else: unit.append(len(cases) - 1)
-        if unit:
-            units.append(unit)
+            if key not in seen:
+                seen.add(key); cases.append(c); owner.append(gi)
 
     # 3. implementation
     B = 40
@@ -359,13 +396,21 @@ def run(ctx):
     dist["top_sort_failed"] = sum(1 for _, o in top if o[0] == "RFail")
     dist["reachable_failed"] = sum(1 for c, o in zip(cases, outs) if c[0] == "reachable" and o[0] == "RFail")
 
-    # 4. model: every comparison is evaluated in Coq -- one expression per graph, then the members of failing groups one by one
+    # 4. model: every comparison is evaluated in Coq -- one expression per graph, then the members of failing groups one by one;
+    # undecodable answers and the cases in the categories of the known defects are evaluated one by one from the start
+    units, cur = [], {}
+    for i, c in enumerate(cases):
+        if outs[i][0] == "ROther" or category(c, outs[i]) in SOLO:
+            units.append([i])
+        else:
+            cur.setdefault(owner[i], []).append(i)
+    units += [u for _, u in sorted(cur.items())]
+    t_impl = time.time() - t0
     def one(i):
-        return "(check %s %s)%%Z" % (query_coq(cases[i]), outs[i][0])
+        return unit_coq([i], cases, outs)
 
-    exprs = [one(u[0]) if len(u) == 1 else "(check_all [%s])%%Z" % "; ".join("(%s, %s)" % (query_coq(cases[i]), outs[i][0]) for i in u)
-             for u in units]
-    chunk = max(40, -(-len(exprs) // (2 * core.NPROC)))
+    exprs = [unit_coq(u, cases, outs) for u in units]
+    chunk = max(40, -(-len(exprs) // core.NPROC))
     bad_units, errs = core.coq_eval_bools(ctx.prop, IMPORTS, exprs, chunk=chunk)
     tie_breaks += [{"kind": "coq-eval", "what": "model evaluation shard failed", "detail": t} for _, t in errs]
     bad = [units[k][0] for k in bad_units if len(units[k]) == 1]
@@ -383,18 +428,29 @@ def run(ctx):
     by_key = {}
     for i in bad:
         c = cases[i]
-        by_key.setdefault("%s:%s" % (OPS[c[0]][0], category(c)), []).append((c, outs[i]))
+        by_key.setdefault("%s:%s" % (OPS[c[0]][0], category(c, outs[i])), []).append((c, outs[i]))
     dist["mismatches_by_key"] = {k: len(v) for k, v in by_key.items()}
+    reported = []
     for key, lst in sorted(by_key.items()):
         lst.sort(key=lambda co: case_size(co[0]))
-        for c, o in lst[:3]:
-            spec = core.coq_eval_show(ctx.prop, IMPORTS, "(run %s)%%Z" % query_coq(c)) if c[0] != "top_sort" else \
-                "any topological order (is_top_order), or failure iff none exists; acyclicb && closedb " + \
-                core.coq_eval_show(ctx.prop, IMPORTS, "(acyclicb %s && closedb %s)%%bool%%Z" % (g_coq(c[1][0]), g_coq(c[1][0])))
-            failures.append({"key": key, "what": "%s/%d result differs from the graph-theoretic definition (%d such cases in this run)"
-                             % (OPS[c[0]][0], len(OPS[c[0]][2]) + 1, len(lst)),
-                             "input": query_text(c), "impl": o[1], "spec": spec, "vertex_encoding": c[2].kind, "property_fails": True})
+        reported += [(key, c, o, len(lst)) for c, o in lst[:2]]
+    specs = {}
+    showable = [r for r in reported if r[1][0] != "top_sort"]
+    if showable:
+        txt = core.coq_eval_show(ctx.prop, IMPORTS, "([%s])%%Z" % "; ".join("run %s" % query_coq(r[1]) for r in showable))
+        m = txt[txt.find("["):txt.rfind("]") + 1]
+        parts = split_top(m)
+        if len(parts) == len(showable):
+            specs = {query_text(r[1]): p for r, p in zip(showable, parts)}
+        else:
+            specs = {query_text(r[1]): "(all reported cases, in order) " + txt for r in showable}
+    for key, c, o, n in reported:
+        spec = specs.get(query_text(c), "any topological order of the graph (is_top_order), or failure iff none exists (cyclic, or a neighbour that is not a vertex)")
+        failures.append({"key": key, "what": "%s/%d result differs from the graph-theoretic definition (%d such cases in this run)"
+                         % (OPS[c[0]][0], len(OPS[c[0]][2]) + 1, n),
+                         "input": query_text(c), "impl": o[1], "spec": spec, "vertex_encoding": c[2].kind, "property_fails": True})
 
+    t_all = time.time() - t0
     nontrivial = set()
     for c in cases:
         if any(has_edge(a) for a in c[1]) or (c[0] == "veu" and c[1][1]):
@@ -414,6 +470,7 @@ def run(ctx):
                  "(check = exact equality with the model; top_sort by validity; the cases of one graph form one check_all expression, members of a "
                  "failing group are re-evaluated one by one). Non-trivial = distinct case whose graph argument (or edge list) has at least one edge."),
         "samples": samples,
+        "notes": ["generation + implementation run %.1fs, Coq evaluation %.1fs" % (t_impl, t_all - t_impl)],
         "distribution": dist,
         "failures": failures,
         "tie_breaks": tie_breaks,
